@@ -21,6 +21,9 @@ func (f *g2lFn) params() []nameType {
 		}
 		for _, fld := range fl.List {
 			t := f.p.info.Types[fld.Type].Type
+			if f.isWorldObj(t) {
+				continue
+			}
 			if len(fld.Names) == 0 {
 				out = append(out, nameType{"_", f.leanType(t, fld)})
 			}
@@ -108,6 +111,13 @@ func (f *g2lFn) compileBody(monad string) (lines []string) {
 	}
 	end := func() []string {
 		if len(f.results) == 0 {
+			if f.deferBody != nil && !f.inDefer {
+				// falling off the end of a function with a deferred closure: run it, then return
+				f.inDefer = true
+				tail := f.stmts(f.deferBody, func() []string { return f.retTerm("()") })
+				f.inDefer = false
+				return tail
+			}
 			return f.retTerm("()")
 		}
 		if f.named {
@@ -141,8 +151,12 @@ func (f *g2lFn) emit() string {
 	for _, tv := range sortedVals(f.u.absTypes) {
 		typeVars += fmt.Sprintf("{%s : Type} [DecidableEq %s] [Inhabited %s] ", tv, tv, tv)
 	}
+	for _, tv := range f.u.extraTypeVars {
+		// type variables that occur only in function signatures (the world type): no instances needed
+		typeVars += fmt.Sprintf("{%s : Type} ", tv)
+	}
 	usesTV := func(s string) bool {
-		for _, tv := range sortedVals(f.u.absTypes) {
+		for _, tv := range append(sortedVals(f.u.absTypes), f.u.extraTypeVars...) {
 			if containsWord(s, tv) {
 				return true
 			}
@@ -385,6 +399,9 @@ func g2lEmitUnit(u *g2lUnit) string {
 	// struct types first (those named in u.structs order)
 	dummy := &g2lFn{u: u, p: p}
 	u.structTV = map[string]bool{}
+	for _, ps := range u.paramStructs {
+		u.structTV[ps] = true
+	}
 	for changed := true; changed; {
 		changed = false
 		for _, s := range u.structNames {
@@ -483,6 +500,9 @@ func g2lEmitUnit(u *g2lUnit) string {
 			}()
 			text = f.emit()
 		}()
+		if mid, ok := u.midamble[name]; ok {
+			b.WriteString(mid + "\n")
+		}
 		b.WriteString(text + "\n")
 	}
 	fmt.Fprintf(b, "end ModVerif.Generated.%s\n", u.ns)
